@@ -185,7 +185,7 @@ def _decode(parse_ilog_data, data, path, table, label, route):
         out = json.loads(plug.parseUDToJson(73, {'mex_pte.h': 1, 'nimitz_pte.h': 2}[label], memoryview(bytes(data))))
         lines = out.get('ILOG') if isinstance(out, dict) and isinstance(out.get('ILOG'), list) else None
     else:
-        lines = parse_ilog_data(memoryview(bytes(data)), path)
+        lines = parse_ilog_data(drawer.view(data, len(data) // 8), path)
     rec = dict(family='C14', shape_ok=lines is not None, label=label, table=drawer.abstract_pte(table), data=data,
                headings=min(2, len(lines or [])), lines=[], route=route)
     if lines is None:
